@@ -23,6 +23,83 @@ def rotation_cone(p):
     return p.cone(ents, cut_traits=CUT, stop=(EXPAND,)) - {EXPAND}
 
 
+def rule_reopen_keeps_data(ctx, p, cfg, rid="E4"):
+    """no OpenOptions::truncate whose argument can be true is reachable from Append::append, per calling context"""
+    with ctx.rule(rid, "reopening must not destroy data", cfg) as r:
+        ro = rolling.roles(p)
+        g = ro["get_writer"]
+        cone = rotation_cone(p)
+        tr_sites = p.all_calls("std::fs::OpenOptions::truncate", within=cone)
+        # contexts: call sites of the opener inside the append cone (not the builder)
+        ctxs = [c for c in p.all_calls(g.path) if c.fn.path in cone]
+        r.require(len(ctxs) >= 2, "reopen-contexts", fn=g, detail="call sites of %s reachable from append: %d" % (g.path, len(ctxs)))
+        n = 0
+        for t in tr_sites:
+            tf = t.fn
+            e = q.bool_value(tf, t.t["args"][1])
+            atoms = [deep_strip(a) for a in q.bool_atoms(e)]
+            param_atoms = [a for a in atoms if a[0] == "param"]
+            sites = [c for c in ctxs if c.callee == tf.path] if tf.path == g.path else [None]
+            if tf.path != g.path:
+                sites = [None]
+            for c in sites:
+                n += 1
+                env = {}
+                if c is not None:
+                    for a in param_atoms:
+                        v = strip(c.arg(a[1] - 1)) if a[1] - 1 < len(c.args) else None
+                        if v is not None and v[0] == "const" and v[1] == "bool":
+                            env[a] = bool(v[2])
+                free = [a for a in atoms if a not in env]
+                res = set()
+                for vals in itertools.product([False, True], repeat=len(free)):
+                    ev = dict(env)
+                    ev.update(dict(zip(free, vals)))
+                    res |= q.eval_bool(_ds(e), ev)
+                ctxname = "%s/%s" % (c.fn.path, common.role(c)) if c is not None else tf.path
+                r.require(res == {False}, "truncate-false-in-context:%s" % ctxname, fn=tf, site=(c.at if c is not None else t.at),
+                          detail="truncate(%s) with the context's constants bound %s evaluates to %s" % (show(e, 4), {show(k): v for k, v in env.items()}, sorted(res)),
+                          fail_detail="a reopen reachable from append can truncate the active file: truncate(%s) evaluates to %s in context %s — after a failed roll the un-archived records would be destroyed" % (
+                              show(e, 4), sorted(res), ctxname))
+        if not tr_sites:
+            r.ok("no-truncate-in-append-cone", detail="no OpenOptions::truncate call is reachable from append")
+        # the builder may truncate (open time only)
+        b = p.fn(rolling.BUILD)
+        bc = p.cone([rolling.BUILD], cut_traits=CUT)
+        r.require(bool(p.all_calls("std::fs::OpenOptions::truncate", within=bc)), "truncate-at-open-time-exists", fn=b, detail="truncate mode is still honoured when the appender is built")
+
+
+LOG_FACADE = ("log::__private_api::log", "log::__private_api::enabled", "log::logger", "log::__private_api::log_impl")
+
+
+def _facade_calls(p, within=None):
+    out = []
+    for path, f in p.fns.items():
+        if within is not None and path not in within:
+            continue
+        for c in f.calls():
+            cal = c.callee or ""
+            if cal.startswith("log::__private_api::") or cal == "log::logger" or cal.startswith("<dyn log::Log") or cal == "log::Log::log":
+                out.append(c)
+    return out
+
+
+def rule_no_reentry(ctx, p, cfg, rid="E10"):
+    """the rotation path runs under the appender's writer lock, on the thread that is inside Logger::log: a record emitted
+    through the log facade from there comes back to the same appender and waits for the lock its own caller holds"""
+    with ctx.rule(rid, "the rotation path emits no record of its own", cfg) as r:
+        cone = rotation_cone(p)
+        everywhere = _facade_calls(p)
+        if "config_parsing" in p.meta.get("features", []):
+            r.floor("facade-call-recognised", len(everywhere), 1)   # positive control: init_from_raw_config's log::info! must be seen by the same matcher
+        bad = _facade_calls(p, within=cone)
+        for c in bad:
+            r.fail("facade-call:%s/%s" % (c.fn.path, common.role(c)), fn=c.fn, site=c.at,
+                   detail="%s calls %s while append holds the writer lock: with log4rs installed as the logger the record re-enters this appender and the append never returns" % (c.fn.path, c.callee))
+        if not bad:
+            r.ok("no-facade-call-in-cone", detail="%d functions reachable from RollingFileAppender::append; none calls the log facade (%d such call(s) elsewhere in the crate)" % (len(cone), len(everywhere)))
+
+
 def run(ctx):
     configs = ["default", "full"] if ctx.tier == "quick" else ["default", "release", "full", "nobg-full", "single:rolling_file_appender,compound_policy,fixed_window_roller,delete_roller"]
     for cfg in configs:
@@ -195,48 +272,8 @@ def run_cfg(ctx, p, cfg):
         else:
             r.ok("no-compound-policy", detail="compound policy not compiled in this configuration")
 
-    with ctx.rule("E4", "reopening must not destroy data", cfg) as r:
-        ro = rolling.roles(p)
-        g = ro["get_writer"]
-        cone = rotation_cone(p)
-        tr_sites = p.all_calls("std::fs::OpenOptions::truncate", within=cone)
-        # contexts: call sites of the opener inside the append cone (not the builder)
-        ctxs = [c for c in p.all_calls(g.path) if c.fn.path in cone]
-        r.require(len(ctxs) >= 2, "reopen-contexts", fn=g, detail="call sites of %s reachable from append: %d" % (g.path, len(ctxs)))
-        n = 0
-        for t in tr_sites:
-            tf = t.fn
-            e = q.bool_value(tf, t.t["args"][1])
-            atoms = [deep_strip(a) for a in q.bool_atoms(e)]
-            param_atoms = [a for a in atoms if a[0] == "param"]
-            sites = [c for c in ctxs if c.callee == tf.path] if tf.path == g.path else [None]
-            if tf.path != g.path:
-                sites = [None]
-            for c in sites:
-                n += 1
-                env = {}
-                if c is not None:
-                    for a in param_atoms:
-                        v = strip(c.arg(a[1] - 1)) if a[1] - 1 < len(c.args) else None
-                        if v is not None and v[0] == "const" and v[1] == "bool":
-                            env[a] = bool(v[2])
-                free = [a for a in atoms if a not in env]
-                res = set()
-                for vals in itertools.product([False, True], repeat=len(free)):
-                    ev = dict(env)
-                    ev.update(dict(zip(free, vals)))
-                    res |= q.eval_bool(_ds(e), ev)
-                ctxname = "%s/%s" % (c.fn.path, common.role(c)) if c is not None else tf.path
-                r.require(res == {False}, "truncate-false-in-context:%s" % ctxname, fn=tf, site=(c.at if c is not None else t.at),
-                          detail="truncate(%s) with the context's constants bound %s evaluates to %s" % (show(e, 4), {show(k): v for k, v in env.items()}, sorted(res)),
-                          fail_detail="a reopen reachable from append can truncate the active file: truncate(%s) evaluates to %s in context %s — after a failed roll the un-archived records would be destroyed" % (
-                              show(e, 4), sorted(res), ctxname))
-        if not tr_sites:
-            r.ok("no-truncate-in-append-cone", detail="no OpenOptions::truncate call is reachable from append")
-        # the builder may truncate (open time only)
-        b = p.fn(rolling.BUILD)
-        bc = p.cone([rolling.BUILD], cut_traits=CUT)
-        r.require(bool(p.all_calls("std::fs::OpenOptions::truncate", within=bc)), "truncate-at-open-time-exists", fn=b, detail="truncate mode is still honoured when the appender is built")
+    rule_reopen_keeps_data(ctx, p, cfg, "E4")
+    rule_no_reentry(ctx, p, cfg, "E10")
 
     if "fixed_window_roller" in feats:
         c07.rule_shift_order(ctx, p, cfg, "E5")
